@@ -13,6 +13,7 @@ From ZV.Codec Require Import Frame Encode.
 From ZV.Stream Require Import StoreStream StoreStreamProofs StoreStreamE2E.
 From ZV.Stream Require Import StreamInstProofs.
 From ZV.Stream Require Import StreamInstDict DStreamDict DictUseModel DictUseProofs.
+From ZV.Stream Require Import DictIdModel DictIdProofs.
 Import ListNotations.
 Local Open Scope N_scope.
 
@@ -328,3 +329,62 @@ Theorem C02_dict_sticky :
   Forall (fun o => o = Some d) (snd (dd_run D s ops)).
 Proof. exact sticky_dict. Qed.
 Print Assumptions C02_dict_sticky.
+
+(* ---- round 3: frames that NAME a dictionary (dctx->dictID, ZSTD_d_refMultipleDDicts, the DDict set) - DictIdModel.v ---- *)
+
+(* for EVERY history of API events (load / ref (adding to the set when the parameter is on) / prefix / parameter switch / resets /
+   streamed frames naming any ID / single-call decompressions over frames naming any IDs) from ANY context state: a frame that names
+   a dictionary ID and is accepted was decoded from a dictionary of exactly that ID (the tables and content loaded by
+   ZSTD_decompressBegin_usingDDict, recorded in dctx->dictID - not merely the DDict selected afterwards: the statement the
+   fixes 70fa663 / 9260ac3 restored) *)
+Theorem C02_dictid_accept_sound :
+  forall (D : Type) (did : D -> N) (ops : list (iop D)) (s : ds D),
+  Forall (res_sound D did) (snd (ds_run D did s ops)).
+Proof. exact accept_sound. Qed.
+Print Assumptions C02_dictid_accept_sound.
+
+(* the DDict set holds one DDict per ID in every reachable context *)
+Theorem C02_dictid_set_one_per_id :
+  forall (D : Type) (did : D -> N) (ops : list (iop D)) (s : ds D),
+  uniq D did (ds_set D s) -> uniq D did (ds_set D (fst (ds_run D did s ops))).
+Proof. exact reachable_uniq. Qed.
+Print Assumptions C02_dictid_set_one_per_id.
+
+(* ZSTD_d_refMultipleDDicts, streaming: with a current dictionary x, a frame naming the ID of a referenced DDict f is decoded from f,
+   accepted, and f becomes the current dictionary (for indefinite use) *)
+Theorem C02_dictid_multi_selects :
+  forall (D : Type) (did : D -> N) (s : ds D) (id : N) (f x : D),
+  ds_mdd D s = true -> uniq D did (ds_set D s) -> In f (ds_set D s) -> did f = id -> id <> 0 ->
+  ds_dict D s = Some x -> ds_uses D s = UseIndef ->
+  frame_step D did s id = (with_loaded D (with_dict D s (Some f) UseIndef) id, (Some f, id, true)).
+Proof. exact multi_ddict_selects. Qed.
+Print Assumptions C02_dictid_multi_selects.
+
+(* ... a frame that names no dictionary, or none of the referenced ones, is decoded from the current dictionary (and accepted iff it
+   names none or that one); the selection state is unchanged *)
+Theorem C02_dictid_multi_keeps :
+  forall (D : Type) (did : D -> N) (s : ds D) (id : N) (x : D),
+  set_get D did (ds_set D s) id = None -> ds_dict D s = Some x -> ds_uses D s = UseIndef ->
+  frame_step D did s id = (with_loaded D s (did x), (Some x, id, id_ok (did x) id)).
+Proof. exact multi_ddict_keeps. Qed.
+Print Assumptions C02_dictid_multi_keeps.
+
+(* streaming = single call, at the level of dictionary selection: from EVERY context state without a pending single-use prefix
+   and without the pointer of a used-up prefix left behind, for EVERY list of frames (naming any IDs), feeding them one after the
+   other to ZSTD_decompressStream and handing them all to one ZSTD_decompressDCtx call decode every frame from the same
+   dictionary, accept / refuse the same frames (both stop at the first dictionary_wrong) and leave the same state.  The second
+   hypothesis is the state of finding C02-dstream-stale-prefix-pointer-selects-ddict, where the code (and the model) differ. *)
+Theorem C02_dictid_stream_eq_oneshot :
+  forall (D : Type) (did : D -> N) (s : ds D) (ids : list N),
+  ds_uses D s <> UseOnce -> (ds_uses D s = DontUse -> ds_dict D s = None) ->
+  ds_step D did s (IOneShot D ids) = stream_frames D did s ids.
+Proof. exact stream_eq_oneshot. Qed.
+Print Assumptions C02_dictid_stream_eq_oneshot.
+
+(* on histories whose frames name no dictionary the model is the round-2 dictionary-selection model (theorems 17-19 carry over) *)
+Theorem C02_dictid_extends_dict_use :
+  forall (D : Type) (did : D -> N) (ops : list (iop D)), Forall (names_none D) ops -> forall s : ds D,
+  proj D (fst (ds_run D did s ops)) = fst (dd_run D (proj D s) (map (erase D) ops)) /\
+  dicts D (snd (ds_run D did s ops)) = snd (dd_run D (proj D s) (map (erase D) ops)).
+Proof. exact extends_dict_use. Qed.
+Print Assumptions C02_dictid_extends_dict_use.
